@@ -75,6 +75,14 @@ class Answer(HumanResponseEvent):
     uid: int = 0
 
 
+class Bump(HumanResponseEvent):
+    uid: int = 0
+
+
+class Finish(HumanResponseEvent):
+    uid: int = 0
+
+
 class Prog(Event):
     """written to the stream by steps"""
     uid: int = 0
